@@ -453,7 +453,7 @@ func init() {
 	Register(&Check{
 		ID:    "C01",
 		Level: "exploration",
-		Rule: "file contents = all sequences of <=3 (quick) / <=4 (thorough) tokens over 16 byte tokens (0x00, 'a', newline, '.', the wire delimiter byte 0xAC alone and inside UTF-8 characters, 0xFF, '|', space, ';', 'REMOTE|', CR, " +
+		Rule: "contents that start with one of 11 file signatures (byte order marks, gzip/zstd magic inside a plain file, #!, PK, ELF) x 4 continuations x {plain, gz, zst}; file contents = all sequences of <=3 (quick) / <=4 (thorough) tokens over 16 byte tokens (0x00, 'a', newline, '.', the wire delimiter byte 0xAC alone and inside UTF-8 characters, 0xFF, '|', space, ';', 'REMOTE|', CR, " +
 			"runs of 7/8/9 bytes around MaxLineLength 8); gzip/.gzip/zstd encodings and the default log level on a delimiter-free alphabet; format features of the compressed files (gzip files of 2-3 members with boundaries inside a line, an empty first member, header fields, stored blocks; zstd files of 2-3 frames); a long-line family (one line of M-1, M, M+1, 2M, 2M+1 and 32767..65537 bytes, " +
 			"first/middle/last, with/without final newline, plain/gz/zst) for M in {8, 1024, 100000} (+ 1 MiB thorough).  Histories on one long-lived server: an earlier session whose read ends early (grep with a maximum, cut session, follow) followed by a plain cat of another file.  Each runs the real dcat main body (--plain --logLevel error --cfg none, serverless) under the controlled scheduler; " +
 			"oracle: stdout == content with a newline inserted after every M consecutive non-newline bytes, exit status 0; non-trivial = non-empty content",
